@@ -31,6 +31,7 @@ type extractor struct {
 	fset  *token.FileSet
 	files map[string]*ast.File
 	man   genManifest
+	funcs []*ast.FuncDecl
 }
 
 func (x *extractor) file(rel string) *ast.File {
@@ -79,6 +80,125 @@ func (x *extractor) funcDecl(rel, recv, name string) *ast.FuncDecl {
 	return nil
 }
 
+// ---------------------------------------------------------------- same-package helpers (followed ONE level)
+//
+// A maintainer who moves a few statements of a pinned function into a new unexported helper of the same package
+// (same calls, same order) must not change a fact.  The extractor therefore reads a call to such a helper as the
+// helper's own tokens, spliced in at the call site.  Resolution is by name and receiver TYPE only (no type checker):
+//   helper(...)            -> the plain function `helper` of the package
+//   v.helper(...)          -> the method `helper` of T, where v is the receiver or a parameter of the enclosing
+//                             function declared as T or *T
+// Exported functions, functions that have a token of their own (protectedCalls, check*) and pinned functions are
+// never spliced: they stay visible under their own name.
+
+func recvTypeName(fd *ast.FuncDecl) string {
+	if fd.Recv == nil || len(fd.Recv.List) == 0 {
+		return ""
+	}
+	return typeName(fd.Recv.List[0].Type)
+}
+
+func typeName(e ast.Expr) string {
+	switch t := e.(type) {
+	case *ast.StarExpr:
+		return typeName(t.X)
+	case *ast.Ident:
+		return t.Name
+	}
+	return ""
+}
+
+// identTypes: receiver and parameter names of fd -> their (pointer-stripped) type names
+func identTypes(fd *ast.FuncDecl) map[string]string {
+	m := map[string]string{}
+	add := func(fl *ast.FieldList) {
+		if fl == nil {
+			return
+		}
+		for _, f := range fl.List {
+			tn := typeName(f.Type)
+			if tn == "" {
+				continue
+			}
+			for _, n := range f.Names {
+				m[n.Name] = tn
+			}
+		}
+	}
+	add(fd.Recv)
+	add(fd.Type.Params)
+	return m
+}
+
+// pkgFuncs: every function declaration of the root package (no tests, no verif_ shims)
+func (x *extractor) pkgFuncs() []*ast.FuncDecl {
+	if x.funcs != nil {
+		return x.funcs
+	}
+	x.funcs = []*ast.FuncDecl{}
+	gofiles, _ := filepath.Glob(filepath.Join(x.repo, "*.go"))
+	sort.Strings(gofiles)
+	for _, gf := range gofiles {
+		base := filepath.Base(gf)
+		if strings.HasSuffix(base, "_test.go") || strings.HasPrefix(base, "verif_") {
+			continue
+		}
+		f := x.file(base)
+		if f == nil {
+			continue
+		}
+		for _, d := range f.Decls {
+			if fd, ok := d.(*ast.FuncDecl); ok && fd.Body != nil {
+				x.funcs = append(x.funcs, fd)
+			}
+		}
+	}
+	return x.funcs
+}
+
+// helperOf resolves a call inside `in` to an unexported function/method of the package, or nil.
+func (x *extractor) helperOf(in *ast.FuncDecl, call *ast.CallExpr) *ast.FuncDecl {
+	var want, name string
+	switch f := call.Fun.(type) {
+	case *ast.Ident:
+		want, name = "", f.Name
+	case *ast.SelectorExpr:
+		id, ok := f.X.(*ast.Ident)
+		if !ok {
+			return nil
+		}
+		tn, ok := identTypes(in)[id.Name]
+		if !ok {
+			return nil
+		}
+		want, name = tn, f.Sel.Name
+	default:
+		return nil
+	}
+	if name == "" || ast.IsExported(name) || name == in.Name.Name {
+		return nil
+	}
+	var found *ast.FuncDecl
+	for _, fd := range x.pkgFuncs() {
+		if fd.Name.Name == name && recvTypeName(fd) == want {
+			if found != nil {
+				return nil // ambiguous: leave it alone
+			}
+			found = fd
+		}
+	}
+	return found
+}
+
+func isPinned(fd *ast.FuncDecl) bool {
+	for _, sp := range skelFuncs {
+		if sp.name == fd.Name.Name && sp.recv == recvTypeName(fd) {
+			return true
+		}
+	}
+	return false
+}
+
 // selector chain of a call target, e.g. s.resendMutex.RLock -> ["s","resendMutex","RLock"]
 func selChain(e ast.Expr) []string {
 	switch t := e.(type) {
@@ -98,7 +218,7 @@ func selChain(e ast.Expr) []string {
 
 var protectedCalls = map[string]string{
 	"prepMessageForSend": "prep", "persist": "persist", "sendQueued": "flush", "dropQueued": "dropQ",
-	"EnqueueBytesAndSend": "callEnqueueBytesAndSend", "notifyMessageOut": "notify", "IterateMessages": "iterate",
+	"EnqueueBytesAndSend": "callEnqueueBytesAndSend", "IterateMessages": "iterate",
 	"generateSequenceReset": "callGenerateSequenceReset", "sendBytes": "sendBytes",
 	"SaveMessageAndIncrNextSenderMsgSeqNum": "storeSaveIncr", "IncrNextSenderMsgSeqNum": "storeIncrSender",
 	"NextSenderMsgSeqNum": "readSeq", "Reset": "storeReset",
@@ -109,7 +229,11 @@ var protectedCalls = map[string]string{
 
 // skeleton returns the source-order tokens of lock operations and protected actions; deferred unlocks are
 // appended at the end in reverse order of their defer statements.
-func skeleton(fd *ast.FuncDecl) []string {
+func skeleton(fd *ast.FuncDecl) []string { return (*extractor)(nil).skeletonN(fd, 0) }
+
+// skeletonN: as skeleton, and calls to unexported same-package helpers are read as the helper's own skeleton
+// (depth levels deep; the registered facts use depth 1).
+func (x *extractor) skeletonN(fd *ast.FuncDecl, depth int) []string {
 	var toks, deferred []string
 	var visit func(n ast.Node) bool
 	lockTok := func(chain []string) string {
@@ -187,6 +311,17 @@ func skeleton(fd *ast.FuncDecl) []string {
 					return false
 				}
 			}
+			if depth > 0 && x != nil {
+				if h := x.helperOf(fd, t); h != nil && !isPinned(h) {
+					if sub := x.skeletonN(h, depth-1); len(sub) > 0 {
+						for _, a := range t.Args {
+							ast.Inspect(a, visit)
+						}
+						toks = append(toks, sub...)
+						return false
+					}
+				}
+			}
 		}
 		return true
 	}
@@ -195,6 +330,48 @@ func skeleton(fd *ast.FuncDecl) []string {
 		toks = append(toks, deferred[i])
 	}
 	return toks
+}
+
+// onlySplicedIntoPinned: h is an unexported, unpinned helper, it is called somewhere, and EVERY mention of its name in
+// the package is a call that sits inside a pinned function whose skeleton splices it in (so its tokens are part of a
+// pinned fact, at the place where they happen).
+func (x *extractor) onlySplicedIntoPinned(h *ast.FuncDecl) bool {
+	if ast.IsExported(h.Name.Name) || isPinned(h) {
+		return false
+	}
+	if _, own := protectedCalls[h.Name.Name]; own {
+		return false
+	}
+	spliced := map[*ast.Ident]bool{} // the name identifiers that are accounted for
+	for _, in := range x.pkgFuncs() {
+		if !isPinned(in) {
+			continue
+		}
+		ast.Inspect(in.Body, func(n ast.Node) bool {
+			if c, ok := n.(*ast.CallExpr); ok && x.helperOf(in, c) == h {
+				switch f := c.Fun.(type) {
+				case *ast.Ident:
+					spliced[f] = true
+				case *ast.SelectorExpr:
+					spliced[f.Sel] = true
+				}
+			}
+			return true
+		})
+	}
+	if len(spliced) == 0 {
+		return false
+	}
+	ok := true
+	for _, in := range x.pkgFuncs() {
+		ast.Inspect(in.Body, func(n ast.Node) bool {
+			if id, isID := n.(*ast.Ident); isID && id.Name == h.Name.Name && !spliced[id] {
+				ok = false // another call, a method value, a shadowing local …: not accounted for
+			}
+			return true
+		})
+	}
+	return ok
 }
 
 type skelSpec struct{ file, recv, name, lean string }
@@ -246,6 +423,87 @@ func (x *extractor) caseList(rel, recv, name string) []string {
 		return true
 	})
 	return out
+}
+
+// rangeList: the function decides membership by ranging over a fixed list instead of a case list —
+// `for _, k := range <list> { … }` where <list> is a composite literal of identifiers, or a package-level variable of the
+// same file initialised with one.  Returns the identifiers (same shape as caseList).
+func (x *extractor) rangeList(rel, recv, name string) []string {
+	fd := x.funcDecl(rel, recv, name)
+	f := x.file(rel)
+	if fd == nil || f == nil {
+		return nil
+	}
+	idents := func(e ast.Expr) []string {
+		cl, ok := e.(*ast.CompositeLit)
+		if !ok {
+			return nil
+		}
+		var out []string
+		for _, el := range cl.Elts {
+			id, ok := el.(*ast.Ident)
+			if !ok {
+				return nil // anything but a plain identifier: not understood, no fact
+			}
+			out = append(out, id.Name)
+		}
+		return out
+	}
+	var out []string
+	ast.Inspect(fd.Body, func(n ast.Node) bool {
+		rs, ok := n.(*ast.RangeStmt)
+		if !ok {
+			return true
+		}
+		if l := idents(rs.X); l != nil {
+			out = append(out, l...)
+			return true
+		}
+		id, ok := rs.X.(*ast.Ident)
+		if !ok {
+			return true
+		}
+		for _, d := range f.Decls {
+			gd, ok := d.(*ast.GenDecl)
+			if !ok || gd.Tok != token.VAR {
+				continue
+			}
+			for _, sp := range gd.Specs {
+				vs := sp.(*ast.ValueSpec)
+				for i, nm := range vs.Names {
+					if nm.Name == id.Name && i < len(vs.Values) {
+						out = append(out, idents(vs.Values[i])...)
+					}
+				}
+			}
+		}
+		return true
+	})
+	return out
+}
+
+// assignedElsewhere: a package-level variable of the root package is written (assigned, appended to, indexed on the
+// left) outside its declaration — then its initialiser says nothing about its value
+func (x *extractor) assignedElsewhere(varName string) bool {
+	hit := false
+	for _, fd := range x.pkgFuncs() {
+		ast.Inspect(fd.Body, func(n ast.Node) bool {
+			if as, ok := n.(*ast.AssignStmt); ok {
+				for _, l := range as.Lhs {
+					if ch := selChain(l); len(ch) == 1 && ch[0] == varName {
+						hit = true
+					}
+					if ix, ok := l.(*ast.IndexExpr); ok {
+						if ch := selChain(ix.X); len(ch) == 1 && ch[0] == varName {
+							hit = true
+						}
+					}
+				}
+			}
+			return true
+		})
+	}
+	return hit
 }
 
 // constants of a file: name -> literal text (ints and strings), iota blocks resolved for plain `= iota` sequences
@@ -306,14 +564,44 @@ func (x *extractor) verifyOrder() []string {
 	if fd == nil {
 		return nil
 	}
+	recorded := func(nm string) bool {
+		return strings.HasPrefix(nm, "check") || nm == "verifyMsgAgainstAppImpl" || nm == "currentResendState"
+	}
 	var out []string
-	ast.Inspect(fd.Body, func(n ast.Node) bool {
+	var walk func(in *ast.FuncDecl, depth int)
+	walk = func(in *ast.FuncDecl, depth int) {
+		ast.Inspect(in.Body, func(n ast.Node) bool {
+			if c, ok := n.(*ast.CallExpr); ok {
+				ch := selChain(c.Fun)
+				if len(ch) > 0 {
+					nm := ch[len(ch)-1]
+					if recorded(nm) {
+						out = append(out, nm)
+					} else if depth > 0 {
+						// a same-package unexported helper: the checks it makes count as made here, in its order
+						if h := x.helperOf(in, c); h != nil {
+							walk(h, depth-1)
+						}
+					}
+				}
+			}
+			return true
+		})
+	}
+	walk(fd, 1)
+	return out
+}
+
+// one entry per place that arms the peer timer (`….peerTimer.Reset(arg)`): the float literals converted by float64(<lit>)
+// inside arg, or — when arg gets its value from an unexported same-package helper — inside that helper's body
+// ("<none>" if there is no such literal: the duration is computed some other way)
+func floatLits(n ast.Node) []string {
+	var out []string
+	ast.Inspect(n, func(n ast.Node) bool {
 		if c, ok := n.(*ast.CallExpr); ok {
-			ch := selChain(c.Fun)
-			if len(ch) > 0 {
-				nm := ch[len(ch)-1]
-				if strings.HasPrefix(nm, "check") || nm == "verifyMsgAgainstAppImpl" || nm == "currentResendState" {
-					out = append(out, nm)
+			if id, ok := c.Fun.(*ast.Ident); ok && id.Name == "float64" && len(c.Args) == 1 {
+				if bl, ok := c.Args[0].(*ast.BasicLit); ok && bl.Kind == token.FLOAT {
+					out = append(out, bl.Value)
 				}
 			}
 		}
@@ -322,7 +610,6 @@ func (x *extractor) verifyOrder() []string {
 	return out
 }
 
-// float literals appearing in calls of the form float64(<lit>) * float64(s.HeartBtInt)
 func (x *extractor) peerFactors() []string {
 	var out []string
 	for _, rel := range []string{"session.go", "session_state.go", "in_session.go"} {
@@ -330,16 +617,38 @@ func (x *extractor) peerFactors() []string {
 		if f == nil {
 			continue
 		}
-		ast.Inspect(f, func(n ast.Node) bool {
-			if c, ok := n.(*ast.CallExpr); ok {
-				if id, ok := c.Fun.(*ast.Ident); ok && id.Name == "float64" && len(c.Args) == 1 {
-					if bl, ok := c.Args[0].(*ast.BasicLit); ok && bl.Kind == token.FLOAT {
-						out = append(out, bl.Value)
-					}
-				}
+		for _, d := range f.Decls {
+			fd, ok := d.(*ast.FuncDecl)
+			if !ok || fd.Body == nil {
+				continue
 			}
-			return true
-		})
+			ast.Inspect(fd.Body, func(n ast.Node) bool {
+				c, ok := n.(*ast.CallExpr)
+				if !ok {
+					return true
+				}
+				ch := selChain(c.Fun)
+				if len(ch) < 2 || ch[len(ch)-1] != "Reset" || ch[len(ch)-2] != "peerTimer" || len(c.Args) != 1 {
+					return true
+				}
+				lits := floatLits(c.Args[0])
+				if len(lits) == 0 {
+					ast.Inspect(c.Args[0], func(m ast.Node) bool {
+						if hc, ok := m.(*ast.CallExpr); ok {
+							if h := x.helperOf(fd, hc); h != nil {
+								lits = append(lits, floatLits(h.Body)...)
+							}
+						}
+						return true
+					})
+				}
+				if len(lits) == 0 {
+					lits = []string{"<none>"}
+				}
+				out = append(out, lits...)
+				return true
+			})
+		}
 	}
 	return out
 }
@@ -362,7 +671,7 @@ func runExtract(repo, dir string) {
 			sb.WriteString(fmt.Sprintf("def skel_%s : List String := [\"<missing>\"]\n", sp.lean))
 			continue
 		}
-		sb.WriteString(fmt.Sprintf("def skel_%s : List String := %s\n", sp.lean, leanStrList(skeleton(fd))))
+		sb.WriteString(fmt.Sprintf("def skel_%s : List String := %s\n", sp.lean, leanStrList(x.skeletonN(fd, 1))))
 	}
 	// every function of the three files whose skeleton mentions a queue access or prep/persist/flush/dropQ: who touches the send path at all
 	var touchers []string
@@ -374,6 +683,9 @@ func runExtract(repo, dir string) {
 		for _, d := range f.Decls {
 			fd, ok := d.(*ast.FuncDecl)
 			if !ok || fd.Body == nil {
+				continue
+			}
+			if x.onlySplicedIntoPinned(fd) {
 				continue
 			}
 			for _, t := range skeleton(fd) {
@@ -414,6 +726,26 @@ func runExtract(repo, dir string) {
 	}
 	sort.Strings(shutdownImpls)
 	sb.WriteString("def shutdownNowImpls : List String := " + leanStrList(shutdownImpls) + "\n")
+	// notifyMessageOut is a non-blocking wake-up that touches no state the property speaks about: WHERE in a function it
+	// is called is not a fact (moving it across the enqueue under the same lock changes nothing), THAT it is called is
+	var notifiers []string
+	for _, fd := range x.pkgFuncs() {
+		calls := false
+		ast.Inspect(fd.Body, func(n ast.Node) bool {
+			if c, ok := n.(*ast.CallExpr); ok {
+				if ch := selChain(c.Fun); len(ch) > 0 && ch[len(ch)-1] == "notifyMessageOut" {
+					calls = true
+				}
+			}
+			return true
+		})
+		if calls {
+			notifiers = append(notifiers, fd.Name.Name)
+		}
+	}
+	sort.Strings(notifiers)
+	sb.WriteString("\n/-- every function that wakes the sender (notifyMessageOut) -/\n")
+	sb.WriteString("def notifyCallers : List String := " + leanStrList(notifiers) + "\n")
 	sort.Strings(touchers)
 	sb.WriteString("\n/-- every function that touches the send queue, numbering or persistence -/\n")
 	sb.WriteString("def sendPathFunctions : List String := " + leanStrList(touchers) + "\n")
@@ -421,7 +753,22 @@ func runExtract(repo, dir string) {
 	// --- admin message types
 	mt := x.consts("msg_type.go")
 	var admin []string
-	for _, nm := range x.caseList("msg_type.go", "", "isAdminMessageType") {
+	adminNames := x.caseList("msg_type.go", "", "isAdminMessageType")
+	if len(adminNames) == 0 {
+		// the same set written as a list that the function ranges over
+		adminNames = x.rangeList("msg_type.go", "", "isAdminMessageType")
+		if fd := x.funcDecl("msg_type.go", "", "isAdminMessageType"); fd != nil {
+			ast.Inspect(fd.Body, func(n ast.Node) bool {
+				if rs, ok := n.(*ast.RangeStmt); ok {
+					if id, ok := rs.X.(*ast.Ident); ok && x.assignedElsewhere(id.Name) {
+						adminNames = nil
+					}
+				}
+				return true
+			})
+		}
+	}
+	for _, nm := range adminNames {
 		if v, ok := mt[nm]; ok {
 			s, _ := strconv.Unquote(v)
 			admin = append(admin, s)
